@@ -249,7 +249,7 @@ func runCase(c *Case) Obs {
 		go func() {
 			vc.Catch(func() { _, _ = m.MakeRequest(&objects.PingParams{PingID: c.PingID}) })
 		}()
-		srv.Wait(3*time.Second, func(r hsserver.Result) bool { return r.EncSeen >= 1 })
+		srv.Wait(15*time.Second, func(r hsserver.Result) bool { return r.EncSeen >= 1 })
 	} else {
 		// give a misbehaving client the chance to send something it should not
 		time.Sleep(30 * time.Millisecond)
@@ -496,7 +496,7 @@ func (t *oracle) add(l string) {
 
 func zhex(n *big.Int) string { // signed hex: "-" prefix via 'n' marker
 	if n.Sign() < 0 {
-		return "n" + hex.EncodeToString(new(big.Int).Neg(n).Bytes()) + "0"[:0]
+		return "n" + hex.EncodeToString(new(big.Int).Neg(n).Bytes())
 	}
 	if n.Sign() == 0 {
 		return "00"
